@@ -550,8 +550,19 @@ pub fn run_c19(ctx: &mut Ctx) {
                         }
                     }
                     let mut v = g.mods.clone();
-                    v.push((ItemPath::from(parent.as_str()), shadow));
+                    v.push((ItemPath::from(parent.as_str()), shadow.clone()));
                     variants.push(("same-names-in-ancestor-of-M", v));
+                    // ... and a type in that ancestor whose path IS the observed module's path
+                    let last = mpath.rsplit("::").next().unwrap_or("").to_string();
+                    if !shadow.definitions.iter().any(|d| d.name.as_str() == last) {
+                        shadow.definitions.push(ItemDefinition::new(
+                            (Visibility::Public, last.as_str()),
+                            TypeDefinition::new([TypeStatement::field((Visibility::Public, "w"), Type::ident("u8").const_pointer().array(9))]),
+                        ));
+                        let mut v = g.mods.clone();
+                        v.push((ItemPath::from(parent.as_str()), shadow));
+                        variants.push(("type-at-the-path-of-M", v));
+                    }
                 }
             }
             // a module whose path is that of a TYPE the observed module imports by name; it
@@ -716,6 +727,60 @@ pub fn run_c19(ctx: &mut Ctx) {
                                             json!({"observed_module": "ks_ui", "S": case_json(&s0, ptrw), "S_prime": case_json(&s1, ptrw)}),
                                         );
                                     }
+                                }
+                            }
+                        }
+                    }
+                }
+            }
+        }
+        // hand-written pairs (S, S') with the observed module's file
+        {
+            let pairs: Vec<(&str, Vec<(&str, &str)>, Vec<(&str, &str)>, &str)> = vec![
+                (
+                    "type-at-the-path-of-the-observed-module",
+                    vec![("kz_a::Foo", "pub type Foo { pub y: u64, }\npub type Bar { pub f: *mut Foo, }")],
+                    vec![("kz_a", "pub type Foo { pub x: u32, }")],
+                    "kz_a/Foo.rs",
+                ),
+                (
+                    "type-at-the-path-of-an-imported-module",
+                    vec![("kz_b::Inner", "pub type Item { pub y: u64, }"), ("kz_c", "use kz_b::Inner;\npub type Holder { pub i: *const Item, }")],
+                    vec![("kz_b", "pub type Inner { pub x: u32, }\npub type Item { pub z: u16, }")],
+                    "kz_c.rs",
+                ),
+            ];
+            for (name, base_mods, added, file) in pairs {
+                for ptrw in [4usize, 8] {
+                    let parse = |t: &str| pyxis::parser::parse_str(t).expect("C19 pair parses");
+                    let s0: Mods = base_mods.iter().map(|(p, t)| (ItemPath::from(*p), parse(t))).collect();
+                    let mut s1 = s0.clone();
+                    s1.extend(added.iter().map(|(p, t)| (ItemPath::from(*p), parse(t))));
+                    ctx.eval();
+                    let Ok(base) = build_files(&s0, ptrw) else {
+                        ctx.inconclusive(format!("the base input of the pair {name} was rejected"));
+                        continue;
+                    };
+                    for order in 0..2 {
+                        let mut v = s1.clone();
+                        if order == 1 {
+                            v.reverse();
+                        }
+                        ctx.eval();
+                        match build_files(&v, ptrw) {
+                            Err(e) if e.stage == Stage::Panic => ctx.violation("C19/panic", &e.msg, json!({"S": case_json(&s0, ptrw), "S_prime": case_json(&v, ptrw)})),
+                            Err(_) => skipped += 1,
+                            Ok(o2) => {
+                                compared += 1;
+                                ctx.nontrivial(crate::rng::fnv(format!("pair{name}{ptrw}{order}").as_bytes()));
+                                if base.get(file) != o2.get(file) {
+                                    let x: BTreeMap<String, String> = base.iter().filter(|(k, _)| k.as_str() == file).map(|(k, v)| (k.clone(), v.clone())).collect();
+                                    let y: BTreeMap<String, String> = o2.iter().filter(|(k, _)| k.as_str() == file).map(|(k, v)| (k.clone(), v.clone())).collect();
+                                    ctx.violation(
+                                        &format!("C19/output-changed/{name}"),
+                                        &format!("adding a module the observed one neither imports nor references changed `{file}`: {}", first_diff(&x, &y).unwrap_or_default()),
+                                        json!({"observed_file": file, "S": case_json(&s0, ptrw), "S_prime": case_json(&v, ptrw)}),
+                                    );
                                 }
                             }
                         }
